@@ -170,7 +170,7 @@ def persist_schedules(ctx, model, scheds, tag):
     trace = os.path.join(ctx.scratch, "persist_%s_%s.ndjson" % (model, tag))
     inp = {"entries": PERSIST_ENTRIES, "wl": PERSIST_WL, "initMem": pm["init"], "prog": pm["prog"],
            "shape": SHAPES[0], "universe": qnames(["a", "b", "c"], 3), "schedules": scheds,
-           "traceOut": trace, "strictDir": False, "model": model}
+           "traceOut": trace, "strictDir": True, "model": model}
     res = ctx.go_driver("./c18", "TestPersistSchedules", inp, name="persist_%s_%s" % (model, tag), timeout=1500)
     ctx.take_driver_result(res, "[BlPersist %s %s] " % (model, tag))
     if res.get("skipped"):
@@ -350,7 +350,7 @@ def do_replay(ctx, path):
         model = [k for k, v in PERSIST_MODELS.items() if v["prog"] == rp.get("prog")]
         inp = {"entries": PERSIST_ENTRIES, "wl": PERSIST_WL, "initMem": rp.get("initMem") or [], "prog": rp["prog"],
                "shape": rp["shape"], "universe": qnames(["a", "b", "c"], 3), "schedules": [rp["schedule"]],
-               "traceOut": os.path.join(ctx.scratch, "replay.ndjson"), "strictDir": False,
+               "traceOut": os.path.join(ctx.scratch, "replay.ndjson"), "strictDir": True,
                "model": model[0] if model else "replay"}
         res = ctx.go_driver("./c18", "TestPersistSchedules", inp, name="replay_persist", timeout=900)
         ctx.take_driver_result(res, "[replay persist %s] " % (model[0] if model else "?"))
